@@ -101,7 +101,7 @@ EP = L + "analysis/expression_propagation/mod.rs"
 DV = L + "analysis/dead_variable_elimination/mod.rs"
 AV = L + "analysis/dead_variable_elimination/alive_vars_computation.rs"
 PCF = L + "intermediate_representation/project/propagate_control_flow.rs"
-mut("C10", "dead_load_removed", DV, "Def::Assign { var, .. } if !alive_vars.contains(var) => (), // Dead Assignment", "Def::Assign { var, .. } | Def::Load { var, .. } if !alive_vars.contains(var) => (), // Dead Assignment", ["R2|skip-arm"], "dead loads are removed")
+mut("C10", "dead_load_removed", DV, "Def::Assign { var, .. } if !alive_vars.contains(var) => (), // Dead Assignment", "Def::Assign { var, .. } | Def::Load { var, .. } if !alive_vars.contains(var) => (), // Dead Assignment", ["R2|keep|Load|dead"], "dead loads are removed")
 mut("C10", "store_value_not_alive", AV, """            for input_var in value.input_vars() {
                 alive_variables.insert(input_var.clone());
             }
@@ -253,11 +253,11 @@ mut("C22", "lkm_before_partial", MAIN, """    if let Some(ref partial_module_lis
         modules.retain(|module| cwe_checker_lib::checkers::MODULES_LKM.contains(&module.name));
     } else if let Some(ref partial_module_list) = args.partial {
         filter_modules_for_partial_run(&mut modules, partial_module_list);
-    } else {""", ["R2|chain|partial-first"], "kernel-module selection overrides --partial")
+    } else {""", ["R2|chain|partial-overrides-lkm"], "kernel-module selection overrides --partial")
 mut("C22", "default_also_on_partial", MAIN, """    // Get the configuration file.
     let config: serde_json::Value""", """    modules.retain(|module| module.name != "CWE78");
     // Get the configuration file.
-    let config: serde_json::Value""", ["R2|single-filter-statement"], "CWE78 removed even when requested with --partial")
+    let config: serde_json::Value""", ["R2|chain|partial-first"], "CWE78 removed even when requested with --partial")
 mut("C22", "wrong_config_key", MAIN, "(module.run)(&analysis_results, &config[&module.name]);", "(module.run)(&analysis_results, &config[\"CWE676\"]);", ["R2|run-loop|runs-module-with-its-config"], "modules run with another module's configuration")
 mut("C22", "duplicate_name", L + "checkers/cwe_782.rs", 'name: "CWE782",', 'name: "CWE78",', ["R1|name-unique"], "two checks share a name")
 mut("C22", "versions_after_filter", MAIN, """    let mut modules = cwe_checker_lib::get_modules();
